@@ -1,3 +1,3 @@
--- Model driver for property C19 (stub until the property's model exists).
-import GojaModel.Base.Proto
-def main : IO Unit := GojaModel.Proto.lineMap (fun _ => "unimplemented")
+-- Model driver for property C19.
+import GojaModel.C19.Driver
+def main : IO Unit := GojaModel.C19.Driver.main
